@@ -16,6 +16,9 @@ func cRcpt(r *bitcointypes.WithdrawalReceipt) string {
 }
 
 func (w *brWorld) blsKeyID(key []byte) (kind int, id string) {
+	if w.badIdx >= 0 && string(key) == string(w.badKey) {
+		return 1, fmt.Sprint(900 + w.badIdx)
+	}
 	for _, v := range w.voters {
 		if string(v.BlsPub) == string(key) {
 			return 1, fmt.Sprint(v.Idx)
